@@ -57,12 +57,12 @@ def build(ctx):
 
 # ---- scenarios ---------------------------------------------------------------------------------------
 class Scn:
-    """q,min,max,lazy,tick,sp + client scripts (lists of op tokens)"""
-    def __init__(self, scripts, q=2, mn=0, mx=3, lazy=0, tick=0, sp=0, ncpu=4):
-        self.scripts, self.q, self.mn, self.mx, self.lazy, self.tick, self.sp, self.ncpu = scripts, q, mn, mx, lazy, tick, sp, ncpu
+    """q,min,max,lazy,tick,sp,cf + client scripts (lists of op tokens); cf = bit mask of the pool-worker creations that fail"""
+    def __init__(self, scripts, q=2, mn=0, mx=3, lazy=0, tick=0, sp=0, ncpu=4, cf=0):
+        self.scripts, self.q, self.mn, self.mx, self.lazy, self.tick, self.sp, self.ncpu, self.cf = scripts, q, mn, mx, lazy, tick, sp, ncpu, cf
 
     def cfg(self):
-        return f"q={self.q} min={self.mn} max={self.mx} lazy={self.lazy} tick={self.tick} sp={self.sp} ncpu={self.ncpu}"
+        return f"q={self.q} min={self.mn} max={self.mx} lazy={self.lazy} tick={self.tick} sp={self.sp} ncpu={self.ncpu} cf={self.cf}"
 
     def scripts_txt(self):
         return " | ".join(" ".join(s) for s in self.scripts)
@@ -86,7 +86,7 @@ def parse_request(line):
     kv = dict(t.split("=", 1) for t in head.split()[1:] if "=" in t)
     scripts = [s.split() for s in rest.split("|")]
     s = Scn(scripts, int(kv.get("q", 2)), int(kv.get("min", 0)), int(kv.get("max", 3)), int(kv.get("lazy", 0)),
-            int(kv.get("tick", 0)), int(kv.get("sp", 0)), int(kv.get("ncpu", 4)))
+            int(kv.get("tick", 0)), int(kv.get("sp", 0)), int(kv.get("ncpu", 4)), int(kv.get("cf", 0)))
     pre = [] if kv.get("pre", "-") == "-" else [int(x) for x in kv["pre"].split(",")]
     devs = [] if kv.get("dev", "-") == "-" else [tuple(int(y) for y in x.split(":")) for x in kv["dev"].split(",")]
     return s, kv.get("pol", "np") + ("s" if kv.get("split", "0") == "1" else ""), int(kv.get("seed", 1)), int(kv.get("bound", 4000)), pre, devs
@@ -133,6 +133,7 @@ def driver_lines(scn, trace, repaired):
             out.append("V")
         elif l.startswith("F "):
             out.append("F")
+    out.append("K")       # coverage of the model in this run (program counters and edges); not part of the compared trace
     return out
 
 
@@ -181,9 +182,11 @@ def first_diff(a, b):
 
 
 # ---- independent reference over the implementation trace ---------------------------------------------------
-def reference(scn, trace):
+def reference(scn, trace, limit_hit=None):
     """-> list of (class, message) violations of C10 visible in the implementation's own trace"""
     bad = []
+    if limit_hit is None:
+        limit_hit = []
     starts = {}      # call id a -> (fut, b, client index)
     for ci, sc in enumerate(scn.scripts):
         for op in sc:
@@ -198,11 +201,15 @@ def reference(scn, trace):
     n = 0
     verdict = None
     clients = set()
+    workers, failed_creates = set(), []
     for l in trace:
         n += 1
         t = l.split()
         if l.startswith("S "):
             step_thread = int(t[1])
+        elif l.startswith("X result-"):
+            # ledger of the tracked result object of Future<A>: stored into / read from / copied from an instance whose destructor has run
+            bad.append(("result-object-used-after-destroy:" + t[1], l))
         elif l.startswith("X "):
             bad.append(("posix-misuse:" + t[1], l))
         elif l.startswith("O body body "):
@@ -215,6 +222,10 @@ def reference(scn, trace):
             tid, ev = int(t[1]), t[2]
             if ev == "create" and tid == 0:
                 clients.add(int(t[3][1:]))
+            elif ev == "create":
+                workers.add(int(t[3][1:]))
+            elif ev == "create-failed":
+                failed_creates.append(int(t[3][1:]))
             elif ev == "rec-new":
                 a = int(t[3])
                 news[a] = news.get(a, 0) + 1
@@ -278,7 +289,15 @@ def reference(scn, trace):
     if verdict == "DEADLOCK":
         d = next((x for x in trace if x.startswith("D ")), "D ?")
         f = next((x for x in trace if x.startswith("F ")), "")
-        bad.append(("deadlock", d + " ; " + f))
+        blocked = {int(x.split(":")[0][1:]) for x in d.split()[1:] if x[0] == "t" and x.split(":")[0][1:].isdigit()}
+        if failed_creates and not (blocked & workers):
+            # the environment refused a worker thread and NO worker thread is left alive: nobody can serve the queue (a client waits in
+            # join()/run(), or ~ThreadPool waits for a slot for a terminate job counted for a thread that never existed).  Not a violation of
+            # C10 (its liveness clause assumes that worker threads can be created; theorems `join_eventually_fails_...`,
+            # `destructor_hangs_...` in PropsSpawnFail.lean); counted in the evidence.  A deadlock with a live worker asleep stays a violation.
+            limit_hit.append("destructor" if blocked == {0} else "client")
+        else:
+            bad.append(("deadlock", d + " ; " + f))
     elif verdict == "DONE":
         for a in starts:
             if len(execs.get(a, [])) != 1 and news.get(a, 0) >= 1:
@@ -290,6 +309,8 @@ def reference(scn, trace):
             bad.append(("records-leaked", f))
     elif verdict in ("BOUND", "RUNNING"):
         pass
+    if limit_hit and not bad and verdict == "DEADLOCK" and end == "end 5":
+        return bad
     if end != "end 0" and not (verdict == "DEADLOCK" and end == "end 5") and not (verdict == "BOUND" and end == "end 6"):
         if not any(c.startswith("posix-misuse") for c, _ in bad) or "signal" in end or end.split()[1] in ("86", "87"):
             bad.append(("crash", end))
@@ -326,8 +347,11 @@ def classify(bad, trace):
 def summarize(scn, req, trace, mo, want_enabled):
     """-> dict(verdict, steps, bad, sig, diff, choices)"""
     iv = impl_view(trace)
+    pcs = next((l[2:].split(",") for l in mo if l.startswith("K ")), [])
+    mo = [l for l in mo if not l.startswith("K ")]
     d = first_diff(iv, mo)
-    bad = reference(scn, trace)
+    limit_hit = []
+    bad = reference(scn, trace, limit_hit)
     v = next((l.split()[1] for l in trace if l.startswith("V ")), "none")
     steps = sum(1 for l in trace if l.startswith("S "))
     r = {"req": req, "verdict": v, "steps": steps, "bad": bad[:3], "sig": classify(bad, trace) if bad else None, "diff": None,
@@ -350,6 +374,10 @@ def summarize(scn, req, trace, mo, want_enabled):
         r["choices"] = ch
     r["fin"] = next((l for l in trace if l.startswith("F ")), "")
     r["hooks"] = hooks_of(trace)
+    r["pcs"] = pcs
+    r["limit"] = limit_hit[0] if limit_hit else None
+    r["cf"] = scn.cf
+    r["create_failed"] = sum(1 for l in trace if " create-failed " in l)
     return r
 
 
@@ -446,6 +474,11 @@ def small_scenarios():
     out.append(Scn([["s0:11:5", "s1:12:6", "j0", "j1"], ["s2:21:7", "s3:22:8", "j3", "j2"]], q=2, tick=1100, mn=0))
     out.append(Scn([["s0:11:5", "j0"], ["S1:21:7", "J1"]], q=4, lazy=1))
     out.append(Scn([["s0:11:5", "s1:12:6", "j0", "j1"], ["s2:21:7", "s3:22:8", "j3", "j2"]], q=1, tick=1100, mn=1, mx=3))
+    # round 3: a Future<A> destroyed (and re-created, re-started) while its call is still running: ~Future<A> must wait for the result store
+    out.append(Scn([["s0:11:5", "d0", "s0:12:6", "d0", "s0:13:7"], ["S1:21:6", "D1", "S1:22:6"]], q=2))
+    # round 3: the environment refuses worker threads (cf = bit mask over the pool's thread creations)
+    out.append(Scn([["s0:11:5", "s1:12:6", "j0", "j1"]], q=2, cf=1))          # first creation fails, the second start creates the worker
+    out.append(Scn([["s0:11:5", "j0", "s0:12:6", "r0"], ["s1:21:1", "j1"]], q=1, cf=6))   # 2nd and 3rd fail: leaked _threadCount, ~ThreadPool may wait forever
     return out
 
 
@@ -489,7 +522,7 @@ def random_scenario(rng):
         scripts.append(sc)
     return Scn(scripts, q=rng.choice([1, 1, 2, 2, 4, 8]), mn=rng.choice([0, 0, 1, 2]), mx=rng.choice([3, 3, 4]),
                lazy=1 if rng.random() < 0.15 else 0, tick=rng.choice([0, 0, 300, 700, 1100, 2100]), sp=rng.choice([0, 0, 0, 1, 2]),
-               ncpu=rng.choice(NCPU_CHOICES))
+               ncpu=rng.choice(NCPU_CHOICES), cf=rng.choice([0] * 17 + [1, 2, 5]))
 
 
 # ---- exploration -----------------------------------------------------------------------------------------
@@ -569,6 +602,16 @@ def explore(ctx, exe, pool, repaired, stats, on_result):
         Scn([["s0:11:5", "s1:12:7", "s2:13:1", "j0", "j1", "j2"], ["s3:21:6", "s4:22:1", "j3", "j4"]], q=1, tick=1100, sp=1, mn=1, mx=4),
         Scn([["s0:11:5", "s1:12:7", "s2:13:1", "j0", "j1", "j2"], ["s3:21:6", "s4:22:1", "j3", "j4"], ["s5:31:1", "r5"]], q=4, tick=700, sp=2, mx=3),
     ]
+    # spawn-failure stream (round 3): the same kind of client scripts with failing creations of pool workers
+    spawnfail = [
+        Scn([["s0:11:5", "j0"]], q=1, cf=1),
+        Scn([["s0:11:5", "s1:12:6", "r0", "r1", "s0:13:1", "d0"], ["S2:21:6", "J2", "s3:22:2", "a3", "r3", "q3"]], q=2, cf=5),
+        Scn([["s0:11:5", "j0", "s0:12:6", "j0"], ["s1:21:1", "j1"], ["s2:31:1", "j2", "s2:32:2"]], q=1, cf=6, tick=1100),
+        Scn([["s0:11:5", "s1:12:7", "j0", "j1"], ["s3:21:6", "s4:22:1", "j3", "j4"]], q=4, cf=2, lazy=1),
+    ]
+    nsf = 60 if quick else 600
+    for scn in spawnfail:
+        submit(scn, [("rand" if i % 2 else "rands", rng.randrange(1, 10 ** 9), 12000, ()) for i in range(nsf)] + [("np", 1, 6000, ()), ("nps", 1, 12000, ())])
     nstress = 400 if quick else 3000
     for scn in stress:
         submit(scn, [("rand" if i % 2 else "rands", rng.randrange(1, 10 ** 9), 12000, ()) for i in range(nstress)])
@@ -659,7 +702,8 @@ def check(ctx):
     DRV = C.BUILD / f"drv_future_{os.getpid()}"
     shutil.copy2(C.driver_path(DRIVER), DRV)
     repaired = True
-    stats = {"corpus": 0, "runs": 0, "steps": 0, "verdicts": {}, "diffs": 0, "classes": {}, "ops": {}, "maxthreads": 0, "exhaustive_sampled": False}
+    stats = {"corpus": 0, "runs": 0, "steps": 0, "verdicts": {}, "diffs": 0, "classes": {}, "ops": {}, "maxthreads": 0, "exhaustive_sampled": False,
+             "pcs": {}, "spawn_failure": {"runs": 0, "failed_creations": 0, "done": 0, "limit_client_waits_forever": 0, "limit_destructor_waits_forever": 0}}
     found = {}       # signature -> (steps, scn, r)
     diffs = []
     distinct = set()
@@ -672,6 +716,16 @@ def check(ctx):
         stats["maxthreads"] = max(stats["maxthreads"], r.get("nthreads", 0))
         for k, v in r["ops"].items():
             stats["ops"][k] = stats["ops"].get(k, 0) + v
+        for k in r.get("pcs", ()):
+            stats["pcs"][k] = stats["pcs"].get(k, 0) + 1
+        if r.get("create_failed"):
+            sf = stats["spawn_failure"]
+            sf["runs"] += 1
+            sf["failed_creations"] += r["create_failed"]
+            if r.get("limit"):
+                sf["limit_" + r["limit"] + "_waits_forever"] += 1
+            elif r["verdict"] == "DONE":
+                sf["done"] += 1
         if r["steps"] >= 20:
             distinct.add((scn.key(), r["steps"], r["fin"], tuple(sorted(r["ops"].items()))))
         if len(samples) < 6 and stats["runs"] % 997 == 1:
@@ -732,6 +786,19 @@ def report(ctx, exe, repaired, stats, found, diffs, distinct, samples, xres, wre
                        "and of generated scenarios (1-3 clients, 1-3 futures each, start/join/result/abort/query/destroy, queue 1..8, min 0..2, max 3..4, lazy pool, clock ticks, "
                        "spurious wake-ups); evaluations = scheduler steps replayed on the model; distinct_nontrivial = distinct (scenario, step count, final summary, op histogram) of runs with >= 20 steps")
     ctx.cov["open_statements"] = OPEN_STATEMENTS
+    # coverage of the MODEL by the replayed runs: program counters (frame constructors) and branch edges `pc>next pc` executed
+    try:
+        allpcs = subprocess.run([drv()], input="KALL\n", stdout=subprocess.PIPE, text=True, timeout=60).stdout.strip().split("\n")[-1][2:].split(",")
+    except Exception:
+        allpcs = []
+    pcs_hit = {k: v for k, v in stats["pcs"].items() if ">" not in k}
+    edges = {k: v for k, v in stats["pcs"].items() if ">" in k}
+    ctx.cov["branch_hits"] = {"model_program_counters": len(allpcs), "reached_by_a_replayed_run": len([p for p in allpcs if p in pcs_hit]),
+                              "unreached": sorted(p for p in allpcs if p not in pcs_hit),
+                              "rarest_program_counters (runs)": dict(sorted(pcs_hit.items(), key=lambda kv: kv[1])[:12]),
+                              "edges_taken": len(edges), "rarest_edges (runs)": dict(sorted(edges.items(), key=lambda kv: kv[1])[:25])}
+    ctx.cov["faults_fired"] = {"failing creation of a pool worker (pthread_create -> EAGAIN, request option cf)": stats["spawn_failure"]}
+    ctx.log(f"model coverage: {ctx.cov['branch_hits']['reached_by_a_replayed_run']}/{len(allpcs)} program counters, {len(edges)} edges; unreached {ctx.cov['branch_hits']['unreached']}; spawn failures {stats['spawn_failure']}")
     ctx.cov["model_exploration"] = xres
     for x in xres:
         if x["repaired"] == 1 and (x["deadlocks"] != 0 or x["faults"] != 0 or x["double"] != 0):
@@ -790,6 +857,8 @@ def replay(ctx, path):
         mo = run_driver([driver_lines(scn, traces[0], True)])[0]
         r = summarize(scn, line, traces[0], mo, False)
         print("\n".join(impl_view(traces[0])[-40:]))
+        if r.get("limit"):
+            print(f"# spawn failure: no worker thread left, {r['limit']} waits forever (documented limit of the liveness clause, not a violation)")
         print(f"verdict={r['verdict']} steps={r['steps']} reference={r['bad']} model-diff={r['diff']}")
         if r["sig"]:
             ctx.violation(f"replay: {r['sig']}", line + "\n# " + " ; ".join(f"{c}: {m}" for c, m in r["bad"]) + "\n", signature=r["sig"])
